@@ -421,7 +421,7 @@ class NetworkMixin(RadioMixin):
                             self.frame_buf.header.from_node = self._addr
                             time.sleep(self._parent_pipe / 1000)
                             self._write(self.frame_buf.header.to_node, TX_PHYSICAL)
-                        return (True, 0)
+                    return (True, 0)  # a poll is never queued (also not on an unassigned node)
                 self.queue.enqueue(self.frame_buf)
                 if self.multicast_relay:
                     # print(
